@@ -77,6 +77,7 @@ const (
 	EOkSer
 	EOkUniqLive // a uniqueness-checking call on the live index succeeded
 	EOkUniqTemp // a uniqueness-checking call on a scratch index succeeded
+	EOkAcceptTemp // an accepting (checking and inserting) call on a scratch index succeeded
 	// sentinel error sources (value flows towards a return)
 	EErrUnique
 	EErrInvalid
@@ -119,7 +120,7 @@ var effNames = [...]string{
 	"FS.mkdir", "FS.rename", "FS.read(object)", "FS.read(schema)", "FS.read(other)", "FS.stat(object)", "FS.stat(schema)", "FS.stat(other)", "FS.readdir", "FS.sync",
 	"JSON.enc(object)", "JSON.enc(schema)", "JSON.enc(other)", "JSON.dec",
 	"HOOK.Transform", "HOOK.Validate", "HOOK.Initialize", "HOOK.UUID", "CASE", "GO", "SLEEP", "CHAN", "PANIC", "CANCEL", "CTX.err", "UUID.new", "REGEXP", "CLONE",
-	"ok(Validate)", "ok(UNIQ.check)", "ok(ACCEPT)", "ok(SCHEMA.get)", "ok(OBJ.read)", "ok(COMPAT)", "ok(STRUCT)", "ok(SERIALISE)", "ok(UNIQ.check live)", "ok(UNIQ.check temp)",
+	"ok(Validate)", "ok(UNIQ.check)", "ok(ACCEPT)", "ok(SCHEMA.get)", "ok(OBJ.read)", "ok(COMPAT)", "ok(STRUCT)", "ok(SERIALISE)", "ok(UNIQ.check live)", "ok(UNIQ.check temp)", "ok(ACCEPT temp)",
 	"ERR(ConstraintUnique)", "ERR(InvalidObject)", "ERR(IndexCorrupted)", "ERR(StructureChanged)", "ERR(FieldDescModif)", "ERR(ExtensionMismatch)", "ERR(WrongObjectType)",
 	"ERR(UnkownSearchOperator)", "ERR(Casting)", "ERR(UnkownField)", "ERR(UnknownKeyType)", "ERR(NoObjectFound)", "ERR(FieldNotIndexed)", "ERR(other)",
 	"CANON", "DIRTY", "CALL.del(cache)", "CALL.del(pending)", "CALL.unindex(live)", "CALL.flush(pending)", "CALL.commit", "CALL.get(cache)", "CALL.starter", "CALL.writeObject", "errors.Is(corrupted)?", "UNRENAMED", "ACCESS", "LOCKOP",
@@ -183,9 +184,12 @@ const (
 	TFromTbl                 // *Schema obtained from the schema table
 	TSchemaVal               // value is / derives from a *Schema
 	TParamObj                // caller-supplied Object
+	TSchemaFields            // the descriptor map loaded from Schema.Fields
 )
 
 const closedTags = TDecoded | TLive | TCache | TPend | TSchemaPath | TObjName // closed under loads
+
+const dataTags = TSchemaPath | TObjName | TSchemaFields
 
 func isPointerLike(t types.Type) bool {
 	switch t.Underlying().(type) {
@@ -482,7 +486,7 @@ func staticEffects(p *Prog, in ssa.Instruction) EffSet {
 	case *ssa.Store:
 		if n, f, _ := fieldOf(x.Addr); n != nil {
 			switch {
-			case n == a.ObjIndex || n == a.FieldIndex || n == a.IndexedField:
+			case n == a.ObjIndex || n == a.FieldIndex:
 				s = s.Union(effs(EIdxWLive, EIdxWTemp, EIdxWUnk))
 			case (n == a.Async && f.Exported()) || (n == a.Schema && (f == a.SchCache || f == a.SchAsync)):
 				s = s.With(ECfgW)
